@@ -9,10 +9,12 @@ import Chrono.Proofs.TzValidL
 import Chrono.Proofs.TzLookupPL
 import Chrono.Proofs.TzLayoutL
 import Chrono.Proofs.TzLocalL
+import Chrono.Proofs.TzDecodeL
+import Chrono.Proofs.TzSamples2
 
 namespace Chrono.Props.C16
 open Chrono Chrono.M.Tz Chrono.Spec.Tz Chrono.Spec.Tz.Gr Chrono.Proofs.Tz Chrono.Proofs.TzValid
-  Chrono.Extracted.TzP Chrono.Proofs.TzLocal
+  Chrono.Extracted.TzP Chrono.Proofs.TzLocal Chrono.Proofs.TzDecode
 
 /-- the extracted header constants are the RFC 8536 ones the writer specification uses, and the
 extracted field bounds are the ones the well-formedness predicates are stated with -/
@@ -540,19 +542,55 @@ theorem rejects_count_mismatch (bytes : List Nat) :
     | err => rfl
     | panic => exact absurd hp (parse_total bytes)
 
-/-- MALFORMED FOOTER, on `parse` itself: a version-1 zone has no rule; for versions 2 and 3 the footer
-of an accepted file (`accepted_layout`: newline-framed) is valid UTF-8, its TZ string — the footer
-without surrounding ASCII white space — neither starts with `:` nor contains a NUL, and it is either
-empty with no rule in the zone, or a string of the TZ grammar DENOTING the zone's rule (the extension
-flag being that of the second header's version).  Any other footer is therefore rejected. -/
+/-- MALFORMED FOOTER, on `parse` itself: a version-1 zone has no rule; for versions 2 and 3 the SECOND
+header carries a version field of its own (`secondVersion`, byte 4 of the header that follows the first
+announced block), the footer of an accepted file (`accepted_layout`: newline-framed) is valid UTF-8,
+its TZ string — the footer without surrounding ASCII white space — neither starts with `:` nor
+contains a NUL, and it is either empty with no rule in the zone, or a string of the TZ grammar DENOTING
+the zone's rule, the extension flag being EXACTLY "the second header says version 3" (round 3: the
+statement used to say `∃ ext`, which is no more than `Denotes true`).  Any other footer is therefore
+rejected; in particular a footer using the RFC 8536 extensions under a second header that says
+version 2 (or 1).  The flag is NOT tied to the first header: see `inconsistent_versions_accepted`. -/
 theorem accepted_footer (bytes : List Nat) (z : Zone) (h : parse bytes = .ok z) :
     (versionOf ((bytes.drop 4).take 1) = some .V1 → z.rule = none)
-      ∧ (versionOf ((bytes.drop 4).take 1) ≠ some .V1 →
-          validUtf8 (footerOf bytes) = true ∧ (trimWs (footerOf bytes)).head? ≠ some 58
+      ∧ (versionOf ((bytes.drop 4).take 1) ≠ some .V1 → ∃ v2, secondVersion bytes = some v2
+          ∧ validUtf8 (footerOf bytes) = true ∧ (trimWs (footerOf bytes)).head? ≠ some 58
             ∧ 0 ∉ trimWs (footerOf bytes)
             ∧ ((trimWs (footerOf bytes) = [] ∧ z.rule = none)
-                ∨ ∃ ext x, z.rule = some x ∧ Denotes ext (trimWs (footerOf bytes)) x)) :=
-  accepted_footer' bytes z h
+                ∨ ∃ x, z.rule = some x ∧ Denotes (v2 == .V3) (trimWs (footerOf bytes)) x)) := by
+  refine ⟨(accepted_footer' bytes z h).1, fun hne => ?_⟩
+  obtain ⟨v2, hv2, -, -, hf⟩ := (accepted_decode' bytes z h).2 hne
+  exact ⟨v2, hv2, parseFooter_ok_inv hf⟩
+
+/-- … hence a footer that is in the grammar only WITH the extensions is rejected unless the second
+header says version 3 -/
+theorem rejects_ext_footer_below_v3 (bytes : List Nat)
+    (h1 : versionOf ((bytes.drop 4).take 1) ≠ some .V1) (h2 : secondVersion bytes ≠ some .V3)
+    (hne : trimWs (footerOf bytes) ≠ [])
+    (hf : ∀ x, ¬ Denotes false (trimWs (footerOf bytes)) x) : parse bytes = .err := by
+  cases hp : parse bytes with
+  | ok z =>
+    exfalso
+    obtain ⟨v2, hv2, -, -, -, hd⟩ := (accepted_footer bytes z hp).2 h1
+    rcases hd with ⟨he, -⟩ | ⟨x, -, hx⟩
+    · exact hne he
+    · cases v2 with
+      | V3 => exact h2 hv2
+      | V1 => exact hf x hx
+      | V2 => exact hf x hx
+  | err => rfl
+  | panic => exact absurd hp (parse_total bytes)
+
+/-- BAD VERSION, second header: a version-2/3 file whose second header carries an unknown version byte
+(anything but `0x00`, `'2'`, `'3'`) is rejected -/
+theorem rejects_bad_version2 (bytes : List Nat) (h1 : versionOf ((bytes.drop 4).take 1) ≠ some .V1)
+    (h : secondVersion bytes = none) : parse bytes = .err := by
+  cases hp : parse bytes with
+  | ok z =>
+    obtain ⟨v2, hv2, -⟩ := (accepted_decode' bytes z hp).2 h1
+    rw [h] at hv2; cases hv2
+  | err => rfl
+  | panic => exact absurd hp (parse_total bytes)
 
 /-- THE READER'S VALUE ON EVERY WRITTEN FILE, versions 2 and 3.  For every file written by the
 specification's writer whose counts fit the header (`BlockShape`) and whose values merely fit their
@@ -774,5 +812,204 @@ theorem local_panics_pinned_before_F32 :
   unfold M.TzL.local_timestamp_opt
   rw [if_pos hx]
   rfl
+
+/-! ### round 3: what an ARBITRARY accepted file is read as (decode soundness)
+
+`Spec.Tz.decodeBlock ts v blk rule` (Spec/TzDecodeSpec.lean) is the zone the bytes of a block SAY,
+field by field, at the byte offsets its six header counts determine (RFC 8536 §3.2): `timecnt` time
+fields of `ts` bytes from offset 44, `timecnt` type-index bytes, `typecnt` records `utoff(4) isdst(1)
+desigidx(1)`, `charcnt` designation bytes, `leapcnt` records `time(ts) corr(4)` — no reader function
+occurs in it.  `v` is the version field of the block's own header: it decides how a time field is
+taken (`fieldTime`). -/
+
+/-- DECODE SOUNDNESS, every accepted byte string (not only the image of the specification's writer): a
+version-1 file is read as what its only block says (4-byte times, no rule); a version-2/3 file is read
+as what its SECOND block says — the block that starts `announcedLen 4 bytes` bytes into the file —
+with 8-byte time fields taken according to the SECOND header's version field `v2`, and the rule its
+footer denotes (`accepted_footer`).  Besides, every type record has `isdst ∈ {0, 1}` and a designation
+index inside the designation array with a NUL after it (`TypeRecsOk`).  With `accepted_is_valid` this
+carries the rejection classes 7e–7g over to arbitrary bytes: a file whose FIELDS are unsorted, or point
+outside the type / designation arrays, or state an offset of 24 h or more, is rejected. -/
+theorem accepted_decode (bytes : List Nat) (z : Zone) (h : parse bytes = .ok z) :
+    (firstVersion bytes = some .V1 → z = decodeBlock 4 .V1 bytes none ∧ TypeRecsOk 4 bytes)
+      ∧ (firstVersion bytes ≠ some .V1 → ∃ v2, secondVersion bytes = some v2
+          ∧ z = decodeBlock 8 v2 (bytes.drop (announcedLen 4 bytes)) z.rule
+          ∧ TypeRecsOk 8 (bytes.drop (announcedLen 4 bytes))) := by
+  refine ⟨(accepted_decode' bytes z h).1, fun hne => ?_⟩
+  obtain ⟨v2, a, b, c, -⟩ := (accepted_decode' bytes z h).2 hne
+  exact ⟨v2, a, b, c⟩
+
+/-- … stated on the input: whatever bytes are accepted, the FIELDS they hold are strictly increasing
+transition times, type indices below `typecnt`, and offsets strictly within 24 hours -/
+theorem accepted_fields_valid (bytes : List Nat) (z : Zone) (h : parse bytes = .ok z) :
+    ∃ ts v blk, z = decodeBlock ts v blk z.rule
+      ∧ SortedStrict ((List.range (hdrCount blk 3)).map (decTransition ts v blk))
+      ∧ (∀ i, i < hdrCount blk 3 → (idxArr ts blk).getD i 0 < hdrCount blk 4)
+      ∧ (∀ i, i < hdrCount blk 4 → -86400 < (decType ts blk i).off ∧ (decType ts blk i).off < 86400) := by
+  have hv := accepted_is_valid bytes z h
+  have key : ∀ ts v blk, z = decodeBlock ts v blk z.rule →
+      SortedStrict ((List.range (hdrCount blk 3)).map (decTransition ts v blk))
+      ∧ (∀ i, i < hdrCount blk 3 → (idxArr ts blk).getD i 0 < hdrCount blk 4)
+      ∧ (∀ i, i < hdrCount blk 4 → -86400 < (decType ts blk i).off ∧ (decType ts blk i).off < 86400) := by
+    intro ts v blk e
+    obtain ⟨-, h1, h2, h3⟩ := hv
+    rw [e] at h1 h2 h3
+    simp only [decodeBlock] at h1 h2 h3
+    refine ⟨h1, fun i hi => ?_, fun i hi => ?_⟩
+    · have := h2 (decTransition ts v blk i) (List.mem_map.mpr ⟨i, List.mem_range.mpr hi, rfl⟩)
+      simpa [decTransition] using this
+    · exact (h3 (decType ts blk i) (List.mem_map.mpr ⟨i, List.mem_range.mpr hi, rfl⟩)).1
+  by_cases hf : firstVersion bytes = some .V1
+  · obtain ⟨e, -⟩ := (accepted_decode bytes z h).1 hf
+    have e' : z = decodeBlock 4 .V1 bytes z.rule := by
+      have hr : z.rule = none := by rw [e]; rfl
+      rw [hr]; exact e
+    exact ⟨4, .V1, bytes, e', key _ _ _ e'⟩
+  · obtain ⟨v2, -, e, -⟩ := (accepted_decode bytes z h).2 hf
+    exact ⟨8, v2, _, e, key _ _ _ e⟩
+
+/-- how a time field is taken: under a header that says version 2 or 3 as the whole field (two's
+complement, big-endian); under a header that says version 1 as its FIRST FOUR bytes — for an 8-byte
+field that is the HIGH half, the low four bytes are ignored -/
+theorem fieldTime_cases (chunk : List Nat) :
+    fieldTime .V2 chunk = asI64 (beNat chunk) ∧ fieldTime .V3 chunk = asI64 (beNat chunk)
+      ∧ fieldTime .V1 chunk = asI32 (beNat (chunk.take 4)) := ⟨rfl, rfl, rfl⟩
+
+/-! #### FINDING (round 3): inconsistent header versions are accepted
+
+The statement lists "bad magic or version" under the "inconsistent … data" that must be rejected, and
+demands that an accepted file yields "exactly the transitions … that were written".  RFC 8536 §3.1
+wants the second header's version field equal to the first's; a second header exists only in files of
+version 2 or later, so a second header that says version 1 contradicts its own existence.  The reader
+checks each version byte for membership in `{0x00, '2', '3'}` only and then DECODES WITH THE SECOND
+ONE: the pair is never compared. -/
+
+/-- KERNEL-CHECKED COUNTEREXAMPLE (the same bytes were run through the real crate): the 119-byte file
+`mixedV2V1Hex` — first header `'2'`, second header `0x00`, one 64-bit transition time
+`00 00 00 01 00 00 00 02` = 4294967298 — is ACCEPTED and its transition is read as `1` (the high four
+bytes); first `'3'` / second `0x00` likewise.  A file whose first header says version 2 and whose
+second header says version 3 is accepted WITH a footer that only version 3 allows
+(`AAA5BBB,M3.2.0/−1,M11.1.0`, a negative rule time; the minus sign is ASCII in the file), which the same file with `'2'`/`'2'` — and with `'3'`/`'2'` — is refused. -/
+theorem inconsistent_versions_accepted :
+    some (mixedFile .V2 .V1 mixBlock2 []) = hexDecode mixedV2V1Hex
+      ∧ parse (mixedFile .V2 .V2 mixBlock2 []) = .ok ⟨[⟨4294967298, 0⟩], [⟨0, false, some (asc "UTC")⟩], [], none⟩
+      ∧ parse (mixedFile .V2 .V1 mixBlock2 []) = .ok ⟨[⟨1, 0⟩], [⟨0, false, some (asc "UTC")⟩], [], none⟩
+      ∧ parse (mixedFile .V3 .V1 mixBlock2 []) = .ok ⟨[⟨1, 0⟩], [⟨0, false, some (asc "UTC")⟩], [], none⟩
+      ∧ parse (mixedExtFile .V2 .V3) = .ok ⟨[], [⟨-18000, false, some (asc "AAA")⟩], [], some mixedExtRule⟩
+      ∧ parse (mixedExtFile .V2 .V2) = .err ∧ parse (mixedExtFile .V3 .V2) = .err
+      ∧ firstVersion (mixedFile .V2 .V1 mixBlock2 []) = some .V2
+      ∧ secondVersion (mixedFile .V2 .V1 mixBlock2 []) = some .V1 := by
+  refine ⟨by decide +kernel, by decide +kernel, by decide +kernel, by decide +kernel, by decide +kernel,
+    by decide +kernel, by decide +kernel, by decide +kernel, by decide +kernel⟩
+
+/-- WHAT IS ACCEPTED, exactly (universal): the second header's version field may be any of the three
+known values whatever the first header says (`accepted_decode`: `∃ v2`), and all three occur with a
+first header that says version 2; an unknown value is refused (`rejects_bad_version2`).  The zone
+returned is the one `accepted_decode` / `accepted_footer` state with THAT `v2`. -/
+theorem accepted_second_version_any :
+    ∀ v2 : Version, ∃ bytes z, parse bytes = .ok z ∧ firstVersion bytes = some .V2
+      ∧ secondVersion bytes = some v2 := by
+  intro v2
+  cases v2
+  · exact ⟨mixedFile .V2 .V1 mixBlock2 [], _, inconsistent_versions_accepted.2.2.1, by decide +kernel, by decide +kernel⟩
+  · exact ⟨mixedFile .V2 .V2 mixBlock2 [], _, inconsistent_versions_accepted.2.1, by decide +kernel, by decide +kernel⟩
+  · exact ⟨mixedExtFile .V2 .V3, _, inconsistent_versions_accepted.2.2.2.2.1, by decide +kernel, by decide +kernel⟩
+
+/-- WHAT THE PROPERTY ASKS FOR, under the hypothesis the reader does not check (`_partial`: the missing
+part is the rejection of files with `secondVersion bytes ≠ firstVersion bytes`, which the crate
+accepts — the finding above): if the two version fields AGREE, an accepted version-2/3 file is read
+with full 64-bit times, and its footer is in the grammar of the FIRST header's version -/
+theorem accepted_decode_consistent_partial (bytes : List Nat) (z : Zone) (h : parse bytes = .ok z)
+    (v : Version) (hv : firstVersion bytes = some v) (hne : v ≠ .V1)
+    (hsame : secondVersion bytes = firstVersion bytes) :
+    z = decodeBlock 8 v (bytes.drop (announcedLen 4 bytes)) z.rule
+      ∧ (∀ chunk, fieldTime v chunk = asI64 (beNat chunk))
+      ∧ ((trimWs (footerOf bytes) = [] ∧ z.rule = none)
+          ∨ ∃ x, z.rule = some x ∧ Denotes (v == .V3) (trimWs (footerOf bytes)) x) := by
+  have hne' : versionOf ((bytes.drop 4).take 1) ≠ some .V1 := by
+    show firstVersion bytes ≠ some .V1
+    rw [hv]; intro e; cases e; exact hne rfl
+  obtain ⟨v2, hv2, e, -⟩ := (accepted_decode bytes z h).2 hne'
+  obtain ⟨v2', hv2', -, -, -, hd⟩ := (accepted_footer bytes z h).2 hne'
+  rw [hsame, hv] at hv2 hv2'
+  cases hv2; cases hv2'
+  refine ⟨e, fun chunk => ?_, hd⟩
+  cases v with
+  | V1 => exact absurd rfl hne
+  | V2 => rfl
+  | V3 => rfl
+
+/-! #### FINDING (round 3): a file cut right after its footer's first newline is accepted
+
+RFC 8536 §3.3: the footer is `NL TZ-string NL` — two newlines even when the TZ string is empty.  The
+reader asks for `starts_with('\n') && ends_with('\n')`, which the ONE-byte footer `"\n"` meets with the
+same byte.  So of all proper prefixes of an accepted version-2/3 file exactly one can survive: the
+cut right after the footer's first newline.  It is not a file a conforming writer emits (that one
+ends in `"\n\n"`), it is truncated data with a malformed footer, and it loses the rule silently
+(`/usr/share/zoneinfo/America/New_York` cut to 3529 of 3552 bytes: accepted, `rule=none`, the offset
+on 2040-07-01 becomes −18000 instead of −14400; checked on the real crate). -/
+
+/-- what that cut is read as, for EVERY accepted file: refused, or the SAME transitions, types and
+leap seconds WITHOUT the rule — nothing else (`_partial`: that it is never refused is kernel-checked
+on the samples below, not proved in general) -/
+theorem truncated_after_footer_newline_partial (bytes : List Nat) (z : Zone) (h : parse bytes = .ok z)
+    (k : Nat) (hk : k < bytes.length) (he : k + (footerOf bytes).length = bytes.length + 1) :
+    parse (bytes.take k) = .err ∨ parse (bytes.take k) = .ok { z with rule := none } :=
+  trunc_footer_newline' bytes z h k hk he
+
+/-- KERNEL-CHECKED COUNTEREXAMPLE to "truncated data is rejected": the written samples cut right after
+the footer's first newline are accepted without their rule, and such a prefix is NOT what the
+specification's writer emits for the same blocks with an empty footer (one newline short) -/
+theorem truncated_after_footer_newline_accepted :
+    parse ((encodeTzif sampleV2).take (footerStart sampleV2 + 1)) = .ok (absBlock sampleV2.v2 none)
+      ∧ parse ((encodeTzif sampleV3).take (footerStart sampleV3 + 1)) = .ok (absBlock sampleV3.v2 none)
+      ∧ parse (encodeTzif sampleV2) = .ok (absBlock sampleV2.v2 (some sampleRule2))
+      ∧ (encodeTzif sampleV2).take (footerStart sampleV2 + 1) ≠ encodeTzif { sampleV2 with footer := [] }
+      ∧ (encodeTzif sampleV2).take (footerStart sampleV2 + 1) ++ [10] = encodeTzif { sampleV2 with footer := [] } := by
+  refine ⟨by decide +kernel, by decide +kernel, by decide +kernel, by decide +kernel, by decide +kernel⟩
+
+/-! #### clause 5 outside C05's `InsideYear` class (G4) -/
+
+/-- `tzif_roundtrip_v2` (the `RuleAgrees` form) on a version-3 file with a PERMANENT-daylight-time
+footer of the kind zic emits (`EST5EDT,0/0,J365/25`): the footer is in the grammar with the extensions
+only (25:00:00), the rule is NOT in C05's class (`¬ TzL.RuleOk`, so `tzif_roundtrip_v2_spec` does not
+apply), the rule agrees with the last transition, and the file is read back exactly -/
+theorem roundtrip_permanent_dst :
+    ¬ Proofs.TzL.RuleOk (some rulePerm)
+      ∧ from_tz_string samplePerm.footer true = .ok rulePerm
+      ∧ from_tz_string samplePerm.footer false = .err
+      ∧ RuleAgrees (absBlock samplePerm.v2 (some rulePerm))
+      ∧ parse (encodeTzif samplePerm) = .ok (absBlock samplePerm.v2 (some rulePerm)) := by
+  have hd : from_tz_string samplePerm.footer true = .ok rulePerm := by decide +kernel
+  have hag : RuleAgrees (absBlock samplePerm.v2 (some rulePerm)) := by
+    intro rule last h1 h2
+    cases h1
+    have e : (absBlock samplePerm.v2 (some rulePerm)).transitions.getLast? = some ⟨1700000000, 0⟩ := by decide
+    rw [e] at h2
+    cases h2
+    exact ⟨1700000000, ⟨-14400, true, some (asc "EDT")⟩, by decide, by decide, by decide +kernel⟩
+  refine ⟨?_, hd, by decide +kernel, hag, ?_⟩
+  · intro hr
+    have h23 : Spec.Zone.InsideYearAt _ 2023 := hr.2.2 2023
+    revert h23
+    decide +kernel
+  · exact tzif_roundtrip_v2 samplePerm (by decide)
+      ⟨by decide, by decide, by decide, by decide, by decide, by decide, by decide, by decide⟩
+      ⟨by decide, by decide, by decide, by decide, by decide, by decide, by decide, by decide⟩
+      ⟨by decide +kernel, by decide +kernel, by decide +kernel, by decide +kernel⟩ _
+      (Or.inr ⟨rulePerm, rfl, tz_accepts_only _ _ _ hd⟩)
+      (show True from trivial) (by decide) (by decide) hag
+
+/-- non-vacuity of `accepted_decode` / `accepted_footer` / `rejects_bad_version2` on real shapes: the
+version-2 sample is what its second block says, with the rule its footer denotes WITHOUT extensions;
+an unknown second version byte (`'4'`) is refused -/
+example :
+    absBlock sampleV2.v2 (some sampleRule2)
+        = decodeBlock 8 .V2 ((encodeTzif sampleV2).drop (announcedLen 4 (encodeTzif sampleV2))) (some sampleRule2)
+      ∧ secondVersion (encodeTzif sampleV2) = some .V2
+      ∧ secondVersion ((encodeTzif sampleV2).set (announcedLen 4 (encodeTzif sampleV2) + 4) 52) = none
+      ∧ parse ((encodeTzif sampleV2).set (announcedLen 4 (encodeTzif sampleV2) + 4) 52) = .err := by
+  refine ⟨by decide +kernel, by decide +kernel, by decide +kernel, ?_⟩
+  exact rejects_bad_version2 _ (by decide +kernel) (by decide +kernel)
 
 end Chrono.Props.C16
